@@ -35,6 +35,7 @@ InitSession(ctx, stack, succ, tce, weight) ==
         p2sh |-> ("P2SH" \in ctx.flags /\ IsP2SH(ctx.script)),
         p2shStack |-> IF "P2SH" \in ctx.flags /\ IsP2SH(ctx.script) THEN stack ELSE <<>>,
         tce |-> tce,
+        sigPushOnly |-> TRUE,      \* whether the scriptSig that ran before a P2SH scriptPubKey was push-only (set at that switch)
         done |-> (Len(ctx.script) = 0 /\ succ = <<>> /\ ~tce.active),
         seq |-> 0, hist |-> <<>>,
         pre |-> IF ctx.sigver = "TAPSCRIPT" /\ HasOpSuccess(ctx.script)
@@ -70,12 +71,14 @@ EndOfScript(s) ==
     ELSE IF s.p2sh THEN
         \* the P2SH scriptPubKey has run: top must be true, then the redeem script runs on the saved stack
         (IF s.vm.stack = <<>> \/ ~CastToBool(Top(s.vm.stack, 1)) THEN FailS(s, "EVAL_FALSE")
+         ELSE IF ~s.sigPushOnly THEN FailS(s, "SIG_PUSHONLY")          \* BIP16: the scriptSig of a P2SH spend is literals only
          ELSE LET st == s.p2shStack
               IN [NextScript(s, Top(st, 1), PopN(st, 1)) EXCEPT !.p2sh = FALSE, !.p2shStack = <<>>])
     ELSE IF s.succ # <<>> THEN
         LET isP2sh == "P2SH" \in s.ctx.flags /\ IsP2SH(s.succ)
         IN [NextScript(s, s.succ, s.vm.stack) EXCEPT !.succ = <<>>, !.p2sh = isP2sh,
-                                                     !.p2shStack = IF isP2sh THEN s.vm.stack ELSE <<>>]
+                                                     !.p2shStack = IF isP2sh THEN s.vm.stack ELSE <<>>,
+                                                     !.sigPushOnly = IF isP2sh THEN IsPushOnly(s.ctx.script) ELSE s.sigPushOnly]
     ELSE [s EXCEPT !.done = TRUE, !.vm.status = "ok", !.vm.err = "OK"]
 
 OpStep(s) ==
